@@ -50,6 +50,26 @@ CHECKS = {
    note="Exhaustive only on the scaled-down domain; the 96-bit domain is sampled with an exact oracle. Literals with more than 28 digit characters are don't-care.",
    technique="TLA+ BigNum/Decimal exact arithmetic (self-checked by TLC) as executable oracle: small-domain exhaustive replay + trace validation of literals and wide operands",
    design="5/C09"),
+ "C06": dict(
+   text="The evaluator is specified twice in TLA+ (module Eval): a big-step denotation Den and a small-step machine that follows ExprAST::exec branch by branch (for an assignment: operator type lookup, target read, right side, name check, handler lookup, handler, store, value None). TLC checks machine = Den (value, final context also at the point of a failure, handler log) on every chain of up to 2 (thorough 3) statements over a 23-statement alphabet (plain, compound, nested, re-typing, self-referential, failing assignments; assignment to a literal, a list, a function-bound name; reads of bound and unbound names) x 5 initial contexts x 3 fault settings, and every behaviour is executed by the real evaluator on an ExprAST built directly, with the caller's Context inspected afterwards. `x op= e` = `x = x op e` over the value universe squared is checked through the operator tables; random multi-statement programs are validated by TLC against Den.",
+   note="Programs are built as ExprAST values, so the check does not depend on the parser. An assignment reads its target first (what the code does, and the property allows).",
+   technique="TLA+ Eval machine vs denotation (TLC exhaustive over statement chains) + replay in the real evaluator + trace validation of random programs",
+   design="5/C06"),
+ "C07": dict(
+   text="TLC checks the small-step evaluator machine against the denotation, plus source-order, at-most-once and stop-at-fault invariants, on every program shape of depth 1 over all node kinds and every depth-2 composition over 7 representative children, whose leaves are distinct logging context functions, crossed with boolean scripts and an error or panic injected at every invocation position. Every behaviour is rebuilt as an ExprAST and executed by the real evaluator with logging handlers: status, value, final context and the exact sequence of handler invocations (with arguments) must match. Random programs (depth <= 4) are recorded and validated by TLC.",
+   note="Observation is through harness-supplied handlers (context functions, global functions, user operators); built-in handlers are not observable. Programs are built as ExprAST values.",
+   technique="TLA+ Eval machine vs denotation with a handler-invocation log (TLC exhaustive over program shapes x scripts x fault positions) + replay + trace validation",
+   design="5/C07"),
+ "C14": dict(
+   text="In the Eval machine the context mutex is a state variable and every handler invocation is a separate step; every scripted handler locks the handle of the context it is evaluated in. TLC checks on all program shapes and handler kinds (context function by call / bare name / assignment target, global function, user prefix / infix / postfix / assignment operator) that no handler is entered with the context lock held and that no state is a deadlock (negative control: BareRefHoldsLock). The real evaluator then runs each depth-1 behaviour 8 times, every handler additionally performing a re-entrant action (parse_expression, execute, register_function / prefix / infix / postfix, a blocking lock of the evaluating context's handle) under a watchdog; at every handler entry try_lock on the context handle and on the five global stores is logged and must succeed - also in every recorded random evaluation validated by TLC.",
+   note="Registry-level re-entrancy with several threads is part of the concurrent model (C13). Deadlock is observed by a watchdog. Trusted: TLC, hook H4 (locks_free), encodings.",
+   technique="TLA+ Eval machine with explicit lock state (TLC: NoLockAcrossHandler, NoDeadlock) + supervised replay with re-entrant handlers + lock bits in validated traces",
+   design="5/C14"),
+ "C15": dict(
+   text="Same machine: an error and a panic are injected at every invocation position of every handler kind on all program shapes (depth 1 all kinds, depth 2 compositions); TLC checks that the machine stops at the fault, that the context lock is free and unpoisoned in every final state and that the context equals the denotation at the fault point. The real evaluator is run on each behaviour (panic caught by the harness); the log must stop at the fault, and afterwards the same context is used again (set, get, a fresh evaluation), an evaluation runs on another thread, a registration is made and all five global mutexes are probed. Random programs with random faults get the same treatment, validated by TLC.",
+   note="Trusted: TLC, hook H4, catch_unwind in the harness, encodings.",
+   technique="TLA+ Eval machine with fault injection at every handler invocation (TLC: StopAtFault, NoPoison, context at fault point) + replay with follow-up probes + trace validation",
+   design="5/C15"),
 }
 NOT_YET = "check not built yet (build in progress; see DESIGN.md section 11)"
 
